@@ -74,6 +74,13 @@ def run_match(graph, cfg, trace, backend="inmem", latlon=False, linked=None, uni
     return m, res
 
 
+def _r(x, nd):
+    try:
+        return None if x is None else round(float(x), nd)
+    except (TypeError, ValueError):
+        return repr(x)
+
+
 def lattice_snapshot(m, nd=9):
     """Canonical snapshot of the whole lattice (state of form-B searches)."""
     if m.lattice is None:
@@ -85,8 +92,13 @@ def lattice_snapshot(m, nd=9):
         for li, layer in enumerate(col.o):
             ents = []
             for key, e in layer.items():
+                # (besides what the invariants read, every field the transition function reads: two states are merged only
+                #  if their futures agree - scores of successors depend on the parts, the accumulated distances and the
+                #  projection of the predecessor)
                 ents.append((key, e.key, round(e.logprob, nd), e.delayed, e.stop, e.length,
-                             tuple(sorted((p.key for p in e.prev), key=repr))))
+                             tuple(sorted((p.key for p in e.prev), key=repr)),
+                             _r(e.logprobe, nd), _r(e.logprobne, nd), _r(e.dist_obs, nd), _r(getattr(e, "d_o", None), nd), _r(getattr(e, "d_s", None), nd),
+                             _r(getattr(e.edge_m, "ti", None), nd), _r(getattr(e.edge_o, "ti", None), nd)))
             layers.append(tuple(sorted(ents, key=repr)))
         cols.append(tuple(layers))
     return (tuple(cols), m.expand_now, m.max_lattice_width, None if m.path is None else len(m.path), m.early_stop_idx)
